@@ -615,3 +615,72 @@ async def facade_teardown_leaves_no_observer_on_any_device(np: int, nb: int, nl:
     ensures("late-change-reaches-no-client-observer", client.calls == 0)
     ensures("facade-tasks-cancelled-and-only-those", both(tasks_cancelled("FACADE:"), not Net.tasks[1].cancelled))
     cover("several-devices", len(devices) > 8)
+
+
+# ------------------------------------------------- late datagrams / timers of the abandoned connection
+from geckolib.driver.accessor import GeckoByteStructAccessor, GeckoWordStructAccessor
+
+
+class Changes:
+    def __init__(self, changes):
+        self.changes = changes
+
+
+@harness(prop="C10", target="geckolib.async_spa:GeckoAsyncSpa.disconnect", name="late_datagram_or_timer_after_disconnect_reaches_no_observer")
+async def late_datagram_or_timer_after_disconnect_reaches_no_observer(pos: int, word: bytes, p1: int, p2: int):
+    """a partial update that was already queued, and the ping loop's own change notification, arriving after the
+    connection was abandoned: whatever they change, no observer of the old connection (spa or items) is called"""
+    requires(both(0 <= pos, pos + 2 <= 1024, len(word) == 2, 0 <= p1, p1 <= 1023, 0 <= p2, p2 + 2 <= 1024))
+    arm(-1)
+    tm = AsyncTasks()
+    spa = GeckoAsyncSpa(b"IOSx", Descr(), tm, events)
+    on_spa = ClientObserver()
+    on_item = ClientObserver()
+    spa.watch(on_spa)
+    a = GeckoByteStructAccessor(spa.struct, "A", p1, "ALL")
+    b = GeckoWordStructAccessor(spa.struct, "B", p2, "ALL")
+    a.watch(on_item)
+    b.watch(on_item)
+    spa.struct.accessors = {"A": a, "B": b}
+    spa._is_connected = True
+    await spa.disconnect()
+    ensures("structure-forgets-its-items-and-spa-its-observers", both(len(spa.struct.accessors) == 0, not spa.has_observers))
+    await spa._async_on_partial_status_update(Changes([(pos, word)]), ("10.0.0.9", 10022))
+    spa._on_change()
+    ensures("late-update-calls-no-observer-of-the-abandoned-connection", both(on_spa.calls == 0, on_item.calls == 0))
+    ensures("abandoned-connection-stays-disconnected", both(not spa.is_connected, not spa.isopen))
+
+
+# ------------------------------- the cancellation primitive with finished-but-untidied tasks in the registry (shared with C15)
+class RegTask:
+    def __init__(self, name, finished):
+        self.name = name
+        self.finished = finished
+        self.cancelled = False
+
+    def get_name(self):
+        return self.name
+
+    def cancel(self):
+        self.cancelled = True
+
+    def done(self):
+        return self.finished
+
+
+@harness(prop="C10", target="geckolib.async_tasks:AsyncTasks.cancel_key_tasks", name="keyed_cancellation_reaches_every_live_task_of_the_domain",
+         bounded="task registries of 0..4 entries (concrete Python list); key and finished-flag of each entry symbolic")
+def keyed_cancellation_reaches_every_live_task_of_the_domain(n: int, k0: bool, k1: bool, k2: bool, k3: bool, f0: bool, f1: bool, f2: bool, f3: bool):
+    """a long-lived manager's registry also holds tasks of earlier runs that have finished but are not tidied yet"""
+    requires(both(0 <= n, n <= 4))
+    n = concrete_cases(n, 0, 4)
+    is_loc = [k0, k1, k2, k3]
+    fin = [f0, f1, f2, f3]
+    tm = AsyncTasks()
+    tasks = [RegTask("LOC:helper" if is_loc[i] else "SPA:other", fin[i]) for i in range(n)]
+    tm._tasks = list(tasks)
+    tm.cancel_key_tasks("LOC")
+    for i in range(n):
+        ensures("every-live-helper-task-is-cancelled", implies(both(is_loc[i], not fin[i]), tasks[i].cancelled))
+        ensures("tasks-of-other-domains-are-left-alone", implies(not is_loc[i], not tasks[i].cancelled))
+    cover("finished-task-in-front-of-a-helper", both(n >= 2, f0, k1, not f1))
